@@ -543,7 +543,7 @@ static void run_purge_holes(State& S) {
       size_t others = 0; for (size_t j = 0; j < live.size(); j++) if (j != i && rng_of(live[j]).seg == g.seg) others++;
       if (others == 0) { i++; continue; }
       segs_done.push_back(g.seg);
-      do_free(S, live[i]); freed.push_back(g);
+      do_free(S, live[i]);        // (its own range only became unused now: it is not judged)
       live[i] = live.back(); live.pop_back();
     }
     for (const Rng& g : freed) {
